@@ -112,6 +112,11 @@ def run(chk):
             continue
         e = p.end[1]
         site = f"{aci.mod.rel}:{p.end[2]}"
+        if isinstance(e, ast.Tuple) and len(e.elts) == 2:
+            sc0, floors = scales.peel_floor(e.elts[0])
+            if floors:
+                chk.bad("C03.R3", site, aqn, "scale has a lower bound", f"{aqn}: the affine scale is floored ({floors}): for a group whose range is below (2**bits - 1) x floor the scale is larger than (hi - lo)/(2**bits - 1)", "half-precision weights with small-range groups")
+                e = ast.Tuple(elts=[sc0, e.elts[1]], ctx=ast.Load())
         if not (isinstance(e, ast.Tuple) and len(e.elts) == 2 and isinstance(e.elts[0], ast.BinOp) and isinstance(e.elts[0].left, ast.BinOp)):
             chk.unknown("C03.R2", site, f"{aqn}: result shape not recognised")
             continue
